@@ -51,7 +51,7 @@ def main():
             enable="checks compile /repo's working tree themselves with "
                    "-DGALOIS_VERIF (vlib/build.py); no CMake option needed",
             baseline_off_cmd="cmake -G Ninja -S /repo -B /repo/_build && "
-                             "cmake --build /repo/_build && ctest --test-dir "
+                             "cmake --build /repo/_build -- -k 0; ctest --test-dir "
                              "/repo/_build -j8 --timeout 900",
             source_commits=hook_commits,
             add_only=True),
